@@ -64,6 +64,28 @@ pub(crate) fn remove_syntactic_sugar(
                     continue;
                 }
             };
+            // Tuples and anonymous components which have not been removed
+            // (for example arguments to `assert` or `log`) are errors.
+            let mut remaining = ReportCollection::new();
+            new_body.contains_expr(&|expr: &Expression| expr.is_tuple(), &mut |meta: &Meta| {
+                let error = TupleError::new(Some(meta), "Tuples are not supported here.", None);
+                remaining.push(error.into_report());
+            });
+            new_body.contains_expr(
+                &|expr: &Expression| expr.is_anonymous_component(),
+                &mut |meta: &Meta| {
+                    let error = AnonymousComponentError::new(
+                        Some(meta),
+                        "Anonymous components are not supported here.",
+                        None,
+                    );
+                    remaining.push(error.into_report());
+                },
+            );
+            if !remaining.is_empty() {
+                reports.append(&mut remaining);
+                continue;
+            }
             let mut new_template = template.clone();
             *new_template.get_mut_body() = new_body;
             new_templates.insert(name.clone(), new_template);
